@@ -195,6 +195,76 @@ harness("c19.pairs3", prop="C19", traced=(), horizon=30, params=_params(3, 2, ("
 oracle("c19.pairs3")(check)
 
 
+# ------------------------------------------------------------------ with_asyncio as the last link
+def _aparams():
+    out = []
+    for pre in ((), ("map",), ("retry",), ("throttle",)):
+        for post in ((), ("map",), ("flat_map",), ("timeout",)):
+            for c in ("function", "partial_kw", "object"):
+                out.append(dict(pre=pre, post=post, callable=c, args=ARGS[len(out) % 3]))
+    return out
+
+
+def abody(mc, p):
+    """bind(fn).<chain>.with_asyncio() vs <chain>.with_asyncio().submit(fn): with_asyncio is documented as
+    the last call of a chain; both forms hand out asyncio futures, driven here by a private event loop."""
+    import asyncio
+    loop = asyncio.new_event_loop()
+    logs = {"bound": [], "plain": []}
+    execs = []
+    out = {}
+    try:
+        for which in ("bound", "plain"):
+            ex = Executors.sync(name="base")
+            execs.append(ex)
+            for i, l in enumerate(p["pre"]):
+                ex = apply_layer(ex, l, i)
+                execs.append(ex)
+            fn = make_callable(p["callable"], logs[which])
+            try:
+                if which == "bound":
+                    b = ex.bind(fn)
+                    for i, l in enumerate(p["post"]):
+                        b = apply_layer(b, l, len(p["pre"]) + i)
+                    b = b.with_asyncio(loop=loop)
+                    af = b(*p["args"])
+                else:
+                    for i, l in enumerate(p["post"]):
+                        ex = apply_layer(ex, l, len(p["pre"]) + i)
+                        execs.append(ex)
+                    ex = ex.with_asyncio(loop=loop)
+                    af = ex.submit(fn, *p["args"])
+                mc.sleep(4)     # worker threads of the layers run under the scheduler; only then drive the loop
+                try:
+                    out[which] = ("ok", brief(loop.run_until_complete(asyncio.wait_for(af, 5))), type(af).__module__.split(".")[0])
+                except Exception as e:
+                    out[which] = ("err", brief(e))
+            except Exception as e:
+                out[which] = ("building or calling raised", type(e).__name__, str(e)[:80])
+    finally:
+        loop.close()
+    mc.observe(bound=out.get("bound"), plain=out.get("plain"), log_bound=brief(logs["bound"]), log_plain=brief(logs["plain"]))
+    for e in reversed(execs):
+        try:
+            e.shutdown(wait=False)
+        except Exception:
+            pass
+
+
+def acheck(x):
+    if not x.require(x.end == "done" and "bound" in x.obs, "bad-ending", end=x.end):
+        return
+    p = x.p
+    x.require(x.obs["bound"] == x.obs["plain"] and x.obs["plain"][0] == "ok", "bind-form-differs-from-submit-form",
+              callable=p["callable"], flat="asyncio",
+              detail="pre=%r post=%r + with_asyncio: bound %r vs submit %r" % (p["pre"], p["post"], x.obs["bound"], x.obs["plain"]))
+    x.require(x.obs["log_bound"] == x.obs["log_plain"], "invocations-differ", callable=p["callable"])
+
+
+harness("c19.asyncio", prop="C19", traced=(), horizon=30, params=_aparams())(abody)
+oracle("c19.asyncio")(acheck)
+
+
 # ------------------------------------------------------------------ names
 def _nparams():
     out = []
@@ -210,6 +280,9 @@ def _nparams():
                         out.append(dict(layers=layers, explicit=explicit, bind_at=bind_at, base=base, flat=False))
                         if bind_at is not None and base == "sync" and n <= 2:
                             out.append(dict(layers=layers, explicit=explicit, bind_at=bind_at, base=base, flat=False, fnattr=True))
+                        if explicit is not None and base == "sync" and n <= 2:
+                            # an explicit name that is falsy (the empty string) is a name like any other
+                            out.append(dict(layers=layers, explicit=explicit, bind_at=bind_at, base=base, flat=False, ename=""))
                         if bind_at is not None and base == "sync":
                             out.append(dict(layers=layers, explicit=explicit, bind_at=bind_at, base=base, flat=True))
     # a base executor without any name attribute (plain stdlib pool): layers get the default name
@@ -257,8 +330,8 @@ def nbody(mc, p):
             cur = cur.flat_bind(lambda: f_return("v")) if p["flat"] else cur.bind(plainfn)
         name = None
         if p["explicit"] == i:
-            name = "nx"
-            inherited = "nx"
+            name = p.get("ename", "nx")
+            inherited = name
         cur = apply_layer(cur, l, i, name=name)
         if l in THREADED:
             expected.append("%s-%s" % (THREADED[l], inherited))
@@ -288,7 +361,7 @@ def ncheck(x):
     p = x.p
     x.require(x.obs["names"] == x.obs["expected"], "thread-name-not-inherited",
               via_bind=p["bind_at"] is not None and p["bind_at"] < len(p["layers"]), explicit=p["explicit"] is not None,
-              fnattr=bool(p.get("fnattr")),
+              fnattr=bool(p.get("fnattr")), falsy_name=p.get("ename") == "",
               detail="layers=%r explicit@%r bind@%r: threads %r expected %r" % (p["layers"], p["explicit"], p["bind_at"], x.obs["names"], x.obs["expected"]))
 
 
@@ -296,6 +369,7 @@ harness("c19.names", prop="C19", traced=(), horizon=10, params=_nparams())(nbody
 oracle("c19.names")(ncheck)
 
 PLAN = {
-    "quick": [dict(harness="c19.pairs", bound=0), dict(harness="c19.names", bound=0)],
-    "thorough": [dict(harness="c19.pairs", bound=0), dict(harness="c19.pairs3", bound=0), dict(harness="c19.names", bound=0)],
+    "quick": [dict(harness="c19.pairs", bound=0), dict(harness="c19.names", bound=0), dict(harness="c19.asyncio", bound=0)],
+    "thorough": [dict(harness="c19.pairs", bound=0), dict(harness="c19.pairs3", bound=0), dict(harness="c19.names", bound=0),
+                 dict(harness="c19.asyncio", bound=0)],
 }
